@@ -15,7 +15,8 @@ pub fn run(f: &[&str]) -> Option<String> {
                     |c| format!("{}|{}|{}", hex(c.disposition_type.as_bytes()), opt(&c.field_name), opt(&c.file_name))) }
         "rgspec" => { let len: u64 = a1.parse().ok()?; let t = us(a2)?;
                     guard(move || crate::range::Range::parse_range_in_content_range(len, &t).map_err(|e| e.message), |r| format!("{}-{}", r.start, r.end)) }
-        "rmp" => { let b = unhex(a1); guard(move || { let mut c = std::io::Cursor::new(&b[..]); crate::range::Range::parse_multipart_body(&mut c, vec![]) }, |l| l.len().to_string()) }
+        "rmp" => { let b = unhex(a1); guard(move || { let mut c = std::io::Cursor::new(&b[..]); crate::range::Range::parse_multipart_body(&mut c, vec![]) },
+                   |l| l.iter().map(|c| format!("{}-{}/{}:{}:{}", c.range.start, c.range.end, hex(c.size.as_bytes()), hex(&c.body), hex(c.content_type.as_bytes()))).collect::<Vec<_>>().join(";")) }
         "crv" => { let t = us(a1)?; guard(move || crate::range::Range::_parse_content_range_header_value(t), |(s, e, z)| format!("{},{},{}", s, e, z)) }
         "cfgb" => { let b = unhex(a1);
                     let table = crate::entry_point::command_line_args::CommandLineArgument::get_command_line_arg_list();
